@@ -75,6 +75,9 @@ Docs == <<
     \*     the declaration lies beyond the 1024-byte prescan: tentative windows-1252 -> utf-8, reset() and re-parse
     [bytes |-> TRUE, frag |-> "", reads |-> << <<DT, K(Pad), S("p"), C(<<120>>), M(1), REPARSE,
                               DT, K(Pad), S("p"), C(<<120>>), M(1), C(<<121>>), E("p"), S("table"), C(<<122>>)>>,
+                            <<EOF>> >>],
+    \* 15  parse  ["<!DOCTYPE html><table>a\u0000b</table>"]        error token and NUL token queued together; text pending
+    [bytes |-> FALSE, frag |-> "", reads |-> << <<DT, S("table"), C(<<97>>), X("invalid-codepoint"), C(<<0>>), C(<<98>>), E("table")>>,
                             <<EOF>> >>]
 >>
 
